@@ -1474,7 +1474,7 @@ class NPProxy(types.ModuleType):
                     return tag(st(*a, **kw))
                 if _h is not None and (_any_sym_args(a) or _any_sym_args(tuple(kw.values()))):
                     return tag(_h(*a, **kw))
-                return _v(*a, **kw)
+                return tag(_v(*a, **kw))
 
             self.__dict__[k] = dispatch
             return dispatch
@@ -1771,6 +1771,9 @@ Float64Shim = _mk_type_shim(_np.float64, lambda x=0.0: x if is_sym(x) else (sym_
 _PROXY = NPProxy()
 _PROXY.__dict__["float64"] = Float64Shim
 _PROXY.__dict__["float_"] = Float64Shim
+for _nm in ("int32", "int64", "intp", "uint8", "uint32", "uint64", "int8", "int16", "float32", "bool_"):
+    _t = getattr(_np, _nm)
+    _PROXY.__dict__[_nm] = _mk_type_shim(_t, (lambda *a, _t=_t, **k: tag(_t(*a, **k))), _np.dtype(_t))
 _MATH = MathProxy()
 
 # methods planted on trimesh.caching.TrackedArray while patched (it cannot be re-based)
